@@ -714,7 +714,7 @@ def sppchip(m, xi, y, idx=None, matrix=None):
     y = tf.stack(y)
     if idx is None:
         idx = tf.raw_ops.Bucketize(input=m, boundaries=list(xi)) - 1
-    xi = tf.cast(tf.stack(xi), y.dtype)
+    xi = tf.cast(np.asarray(xi, dtype=np.float64), y.dtype)
     coeffs = sppchip_coeffs(xi, y, matrix)
     ai, bi, ci, di = tf.unstack(coeffs, axis=-1)
     a, b, c, d = (
@@ -745,12 +745,12 @@ def sppchip_coeffs(xi, y, matrix=None, eps=1e-12):
             h[p] + h[q]
         )
         d_tmp = tf.where(
-            d_tmp * delta[p] < 0,
+            d_tmp * delta[p] <= 0,
             tf.zeros_like(d_tmp),
             tf.where(
                 (delta[p] * delta[q] < 0)
                 & (tf.abs(d_tmp) > 3 * tf.abs(delta[p])),
-                2 * delta[p],
+                3 * delta[p],
                 d_tmp,
             ),
         )
